@@ -101,3 +101,7 @@ impl<V> AddressMap<V> {
         ensures match r { hash_map::Entry::Occupied(e) => forall|op: Op| #[trigger] e.may(op) == old(self).may(k, op),
                           hash_map::Entry::Vacant(e) => forall|op: Op| #[trigger] e.may(op) == old(self).may(k, op) } { unimplemented!() }
 }
+pub type EvmState = HashMap<Address, Account>;
+#[verifier::external_body] proof fn axiom_address_key_model() ensures vstd::std_specs::hash::obeys_key_model::<Address>() {}
+/// typed view (pins the element type of a Vec whose type rustc only infers from a later `push`)
+pub open spec fn tr(v: &Vec<(Address, TransitionAccount)>) -> Seq<(Address, TransitionAccount)> { v@ }
